@@ -44,6 +44,17 @@ IDENT_METHODS = {"astype", "copy", "ravel", "flatten", "squeeze", "reshape"}
 REDUCERS = {"any", "all", "sum", "max", "min", "mean", "prod", "cumsum", "nonzero"}     # np.F(x, ...) == x.F(...)
 NP_CMP = {"np.not_equal": "NotEq", "np.equal": "Eq", "np.greater": "Gt", "np.less": "Lt", "np.greater_equal": "GtE", "np.less_equal": "LtE"}
 SOLVE = {"linalg.solve", "la.solve", "scipy.linalg.solve", "np.linalg.solve", "sp.linalg.solve"}
+# constants of the math / numpy modules, as values: pi is the symbol the base evaluator uses, tau folds to 2 pi, e to exp(1); inf / nan are one
+# symbol each whatever module they are taken from
+MATH_CONSTS = {"math.pi": lambda: F.sym("pi"), "np.pi": lambda: F.sym("pi"), "scipy.pi": lambda: F.sym("pi"), "pi": lambda: F.sym("pi"),
+               "math.tau": lambda: 2 * F.sym("pi"),
+               "math.e": lambda: F.exp(F.const(1)), "np.e": lambda: F.exp(F.const(1)),
+               "math.inf": lambda: F.sym("inf"), "np.inf": lambda: F.sym("inf"), "np.Inf": lambda: F.sym("inf"), "np.infty": lambda: F.sym("inf"),
+               "math.nan": lambda: F.sym("nan"), "np.nan": lambda: F.sym("nan"), "np.NaN": lambda: F.sym("nan")}
+# function forms of the arithmetic operators
+ARITH_FUNCS = {"np.add": ast.Add, "np.subtract": ast.Sub, "np.multiply": ast.Mult, "np.divide": ast.Div, "np.true_divide": ast.Div, "np.power": ast.Pow,
+               "np.float_power": ast.Pow, "operator.add": ast.Add, "operator.sub": ast.Sub, "operator.mul": ast.Mult, "operator.truediv": ast.Div,
+               "operator.pow": ast.Pow, "operator.matmul": ast.MatMult, "math.pow": ast.Pow, "pow": ast.Pow}
 
 
 # ------------------------------------------------------------------------------------------------ values
@@ -73,6 +84,16 @@ class Closure:
         return f"<closure {self.node.name}>"
 
 
+class Partial:
+    """functools.partial(func, *pos, **kws): `func` is the value of the callee (a closure, a function known by its dotted name, a bound method)"""
+
+    def __init__(self, func, pos, kws):
+        self.func, self.pos, self.kws = func, list(pos), dict(kws)
+
+    def __repr__(self):
+        return f"<partial {self.func!r}>"
+
+
 class LocalsValue:
     def __init__(self, owner):
         self.owner = owner
@@ -98,6 +119,7 @@ class World:
         self.calls = []      # (name, [positional values], {keyword: value}, node, seq)
         self.maybe = set()   # buffers that an arm of an undecided test stored into: their content is not known
         self.undecided = []  # the undecided tests (both arms evaluated in a sandbox)
+        self.flat = set()    # atoms that stand for arrays flattened by .ravel() / .flatten(): their .size is their length
 
     def scratch(self):
         w = World()
@@ -105,6 +127,7 @@ class World:
         w.bufs = dict(self.bufs)
         w.cells = list(self.cells)
         w.calls = list(self.calls)
+        w.flat = set(self.flat)
         return w
 
 
@@ -288,6 +311,7 @@ class Facts:
     def __init__(self):
         self.truth = []    # (value, bool)
         self.sign = []     # (value, 'pos' | 'zero' | 'neg')
+        self.intvec = []   # values that are one-dimensional arrays of integer positions (index vectors, not masks)
 
     def lookup_truth(self, v):
         for w, t in self.truth:
@@ -415,6 +439,84 @@ class CBEval(AutoEvaluator):
             return NONE
         return Unknown(f"value {type(v).__name__}")
 
+    def length(self, v):
+        """number of entries along the first axis: one value for len(x), x.shape[0], np.size(x, 0), np.shape(x)[0]"""
+        return self.dim(v, F.const(0))
+
+    def dim(self, x, k):
+        """X.shape[k] as a value.  An array created with a stated shape has that shape; a selection X[np.ix_(r, c)] / X[r] / X[:, c] by integer index
+        vectors (the facts say which values are; index vectors by construction are) has their lengths; a full slice keeps the axis"""
+        if not (is_rat(k) and k.is_const() and k.const_value().denominator == 1) or not is_rat(x):
+            return F.fn("dim", x, k)
+        ki = int(k.const_value())
+        b = self.buf_of(x)
+        if b is not None and isinstance(b.shape, tuple) and b.shape and b.shape[0] != "like" and 0 <= ki < len(b.shape) and is_rat(b.shape[ki]):
+            return b.shape[ki]
+        if b is not None and isinstance(b.shape, tuple) and len(b.shape) == 2 and b.shape[0] == "like" and is_rat(b.shape[1]):
+            return self.dim(b.shape[1], k)
+        if b is not None and not self.has_cells(b.bid) and is_rat(b.init) and not b.init.is_const() and b.shape is None:
+            x = self.deref(x)
+        u = unfn(x)
+        if u is not None and u[0] == "attr:T" and ki in (0, 1):
+            return self.dim(u[1][0], F.const(1 - ki))
+        if u is not None and u[0] == "idx" and ki >= 0:
+            base, ix = u[1]
+            sc = split_call(ix)
+            sel = list(sc[1]) if sc is not None and sc[0] == "np.ix_" and not sc[2] else (untuple(ix) or [ix])
+            if sc is not None and sc[0] != "np.ix_":
+                sel = [ix]
+            if ki < len(sel) and all(is_rat(s_) for s_ in sel[:ki + 1]):
+                # every selector up to axis ki must keep its axis (a vector or a slice; an integer would drop one)
+                if all(self.is_index_vector(s_) or _full_slice(s_) for s_ in sel[:ki]):
+                    if _full_slice(sel[ki]):
+                        return self.dim(base, k)
+                    if self.is_index_vector(sel[ki]):
+                        return self.length(sel[ki])
+            elif ki >= len(sel) and all(is_rat(s_) and (self.is_index_vector(s_) or _full_slice(s_)) for s_ in sel):
+                return self.dim(base, k)
+        return F.fn("dim", x, k)
+
+    def is_index_vector(self, v):
+        """is the value certainly a one-dimensional array of integer positions (not a mask, not a scalar)"""
+        if any(eq(v, w) for w in self.facts.intvec):
+            return True
+        u = unfn(v)
+        if u is None:
+            return False
+        if u[0] in ("arange0", "nonzero0", "call:locate.flippv", "call:np.flatnonzero", "call:np.argsort"):
+            return True
+        if u[0] == "cat":
+            return all(is_rat(x) and self.is_index_vector(x) for x in u[1])
+        if u[0] in ("call:np.sort", "call:np.unique", "call:np.flip") and u[1] and is_rat(u[1][0]):
+            return self.is_index_vector(u[1][0])
+        if u[0] == "idx" and is_rat(u[1][0]) and is_rat(u[1][1]):
+            return self.is_index_vector(u[1][0]) and (self.is_index_vector(u[1][1]) or _is_mask(u[1][1]))
+        return False
+
+    def dims_of(self, v):
+        """(dim(v, 0), ..., dim(v, n-1)) when the facts state the number n of axes of v, else None"""
+        nd = F.fn("attr:ndim", v)
+        for n in range(1, 5):
+            if self.facts.lookup_sign(nd - n) == "zero":
+                return tuple(self.dim(v, F.const(i)) for i in range(n))
+        return None
+
+    def size_of(self, v):
+        """x.size: the length of x when x is known to be one-dimensional (flattened on the way, or an index vector by construction)"""
+        if is_rat(v) and self.is_flat(v):
+            return self.length(v)
+        return F.fn("attr:size", v)
+
+    def is_flat(self, v):
+        a = single_atom(v)
+        if a is not None and a in self.w.flat:
+            return True
+        u = unfn(v)
+        if u is not None and u[0] in ("arange0", "nonzero0", "cat", "call:locate.flippv", "call:np.flatnonzero", "call:np.argsort", "call:np.sort") \
+                and not any((not isinstance(x, str)) and unfn(x) is not None and unfn(x)[0] == "kw:axis" for x in u[1]):
+            return u[0] not in ("call:np.argsort", "call:np.sort") or (bool(u[1]) and is_rat(u[1][0]) and self.is_flat(u[1][0]))
+        return False
+
     def is_object_root(self, name):
         return name in self.localnames or name in self.env
 
@@ -501,8 +603,9 @@ class CBEval(AutoEvaluator):
                     return self._ev(self.module_consts[n])
                 finally:
                     self._folding.discard(n)
-            if n in CONSTS:
-                return F.sym(CONSTS[n])
+            c = self._math_const(n)
+            if c is not None:
+                return c
             return F.sym(n)
         if isinstance(node, ast.Constant) and isinstance(node.value, bytes):
             return F.sym(repr(node.value))
@@ -595,6 +698,14 @@ class CBEval(AutoEvaluator):
             return PyList(out) if isinstance(node, ast.List) else tuple(out)
         return super()._ev(node)
 
+    def _math_const(self, d):
+        """the value of a dotted name that is a constant of the math / numpy modules (however the module or the constant was imported), else None"""
+        root = d.split(".")[0]
+        if self.is_object_root(root):
+            return None
+        c = MATH_CONSTS.get(self._canon_name(d))          # a bare name counts only when the import table says it is a member of math / numpy
+        return c() if c is not None else None
+
     def binop_values(self, op, a, b):
         if is_unknown(a):
             return a
@@ -640,8 +751,9 @@ class CBEval(AutoEvaluator):
         if d is not None:
             if d in self.env:
                 return self.env[d]
-            if d in CONSTS:
-                return F.sym(CONSTS[d])
+            c = self._math_const(d)
+            if c is not None:
+                return c
             root = d.split(".")[0]
             if not self.is_object_root(root):
                 if self.module_consts and root in self.module_consts:
@@ -665,6 +777,8 @@ class CBEval(AutoEvaluator):
             return self._transpose(base)
         if node.attr == "real":
             return base
+        if node.attr == "size":
+            return self.size_of(base)
         return F.fn("attr:" + node.attr, base)
 
     def _transpose(self, v):
@@ -688,7 +802,25 @@ class CBEval(AutoEvaluator):
             if is_rat(k) and k.is_const():
                 x = self._ev(node.value.value)
                 if is_rat(x):
-                    return F.fn("dim", x, k)
+                    return self.dim(self._ev_raw(node.value.value), k)
+        if isinstance(node.slice, ast.Slice):
+            # X.shape[k:] / np.shape(X)[:k] when the facts say how many axes X has: the tuple of its dimensions, sliced
+            shp = None
+            if isinstance(node.value, ast.Attribute) and node.value.attr == "shape":
+                shp = self._ev(node.value.value)
+            elif isinstance(node.value, ast.Call) and self._canon_name(dotted(node.value.func)) == "np.shape" and len(node.value.args) == 1:
+                shp = self._ev(node.value.args[0])
+            dims = self.dims_of(shp) if is_rat(shp) else None
+            if dims is not None:
+                bounds = []
+                for p_ in (node.slice.lower, node.slice.upper, node.slice.step):
+                    bv = None if p_ is None else self.ev(p_)
+                    if bv is not None and not (is_rat(bv) and bv.is_const() and bv.const_value().denominator == 1):
+                        bounds = None
+                        break
+                    bounds.append(None if bv is None else int(bv.const_value()))
+                if bounds is not None:
+                    return tuple(dims[slice(*bounds)])
         if dotted(node.value) in ("np.r_", "numpy.r_") and not self.is_object_root("np"):
             # the index trick np.r_[a, b, ...] concatenates one-dimensional pieces
             elts = node.slice.elts if isinstance(node.slice, ast.Tuple) else [node.slice]
@@ -732,7 +864,7 @@ class CBEval(AutoEvaluator):
             return Unknown(str(e))
         u = unfn(base)
         if u is not None and u[0] == "attr:shape" and is_rat(ix) and ix.is_const():
-            return F.fn("dim", u[1][0], ix)
+            return self.dim(u[1][0], ix)
         ch = _chained(base, ix)
         if ch is not None:
             return ch
@@ -838,27 +970,50 @@ class CBEval(AutoEvaluator):
             return d if m is None else m + "." + rest
         return self.aliases["member"].get(root, d)
 
+    def _callee(self, fv):
+        """a value that is called -> (call name, closure, leading positional values, keyword values) or None.  A `functools.partial` carries leading
+        arguments, a bound method held in a name (`write = f.write`) is the method call on its object, a function held in a name
+        (`vw = writer.vecwrite`) is that function"""
+        pre_pos, pre_kws = [], {}
+        while isinstance(fv, Partial):
+            pre_pos = list(fv.pos) + pre_pos
+            pre_kws = {**fv.kws, **pre_kws}
+            fv = fv.func
+        if isinstance(fv, Closure):
+            return None, fv, pre_pos, pre_kws
+        if is_rat(fv):
+            u = unfn(fv)
+            if u is not None and u[0].startswith("attr:") and len(u[1]) == 1 and is_rat(u[1][0]):
+                return "." + u[0][5:], None, [u[1][0]] + pre_pos, pre_kws
+            n = symname(fv)
+            if n is not None and strconst(fv) is None and not n.startswith(("%", "<", "ns#")) and "#" not in n:
+                return self._canon_name(n), None, pre_pos, pre_kws
+        return None
+
     def _call(self, node):
         func = node.func
         d = self._canon_name(dotted(func))
         recv = None
-        name = d
-        if isinstance(func, ast.Attribute):
-            root = d.split(".")[0] if d else None
-            if d is None or self.is_object_root(dotted(func).split(".")[0]):
-                recv = self.ev_ref(func.value) if func.attr in ("copy", "astype") else self.ev(func.value)
-                name = "." + func.attr
-        elif isinstance(func, ast.Name):
-            fv = self.env.get(func.id)
-            if isinstance(fv, Closure):
-                return self._follow(fv.node, node, closure=fv)
-        elif name is None:
+        name, closure, pre_pos, pre_kws = d, None, [], {}
+        if isinstance(func, ast.Attribute) and (d is None or self.is_object_root(dotted(func).split(".")[0])):
+            recv = self.ev_ref(func.value) if func.attr in ("copy", "astype") else self.ev(func.value)
+            name = "." + func.attr
+        elif not isinstance(func, ast.Attribute):
+            # a name bound in this activation, or any other expression that yields something callable (a lambda called on the spot, `(f if c else g)(x)`)
+            fv = self.env.get(func.id) if isinstance(func, ast.Name) else self.ev(func)
+            c = self._callee(fv) if fv is not None else None
+            if c is not None:
+                name, closure, pre_pos, pre_kws = c
+            elif not isinstance(func, ast.Name):
+                return Unknown(f"call of {ast.unparse(func)[:40]}")
+        if name is None and closure is None:
             return Unknown(f"call of {ast.unparse(func)[:40]}")
         # ---- arguments, evaluated once (an array handed to a function that is followed is handed over as the object it is)
-        followed = (recv is None and name in self.inline) or name in LIKE
-        pos, kws = [], {}
+        followed = closure is not None or (recv is None and name in self.inline) or name in LIKE
+        pos, kws = [], dict(pre_kws)
         if recv is not None:
             pos.append(recv)
+        pos.extend(pre_pos)
         for a in node.args:
             if followed and not isinstance(a, ast.Starred):
                 pos.append(self.ev_ref(a))
@@ -884,8 +1039,22 @@ class CBEval(AutoEvaluator):
                     kws["**"] = v
             else:
                 kws[k.arg] = v
-        # ---- functions of the same module / closures: follow on the values
-        if recv is None and name in self.inline and self.depth < MAX_DEPTH and self.inline[name] not in self.active and self.inline[name] is not self.fn:
+        return self._dispatch(name, pos, kws, node, closure)
+
+    def _dispatch(self, name, pos, kws, node, closure=None):
+        """the value of a call, given the callee and the argument values"""
+        if closure is not None:
+            r = self._follow(closure.node, node, pos=pos, kws=kws, closure=closure)
+            return Unknown(f"call of the local function {closure.node.name} not followed") if r is NotImplemented else r
+        # ---- callables as values
+        if name in ("functools.partial", "partial") and pos and self._callee(pos[0]) is not None:
+            return Partial(pos[0], pos[1:], kws)
+        if name == "map" and len(pos) >= 2 and not kws and all(isinstance(x, tuple) for x in pos[1:]):
+            c = self._callee(pos[0])
+            if c is not None:
+                return tuple(self._dispatch(c[0], c[2] + list(row), dict(c[3]), node, c[1]) for row in zip(*pos[1:]))
+        # ---- functions of the same module: follow on the values
+        if name in self.inline and self.depth < MAX_DEPTH and self.inline[name] not in self.active and self.inline[name] is not self.fn:
             r = self._follow(self.inline[name], node, pos=pos, kws=kws)
             if r is not NotImplemented:
                 return r
@@ -996,6 +1165,16 @@ class CBEval(AutoEvaluator):
                 return pos[0]
         if name == "len" and n == 1 and isinstance(pos[0], tuple):
             return F.const(len(pos[0]))
+        if name == "len" and n == 1 and is_rat(pos[0]) and not kws:
+            t = untuple(pos[0])
+            if t is not None:
+                return F.const(len(t))
+            if strconst(pos[0]) is not None:
+                return F.const(len(strconst(pos[0])))
+            u0 = unfn(pos[0])
+            if u0 is not None and u0[0] == "attr:shape" and len(u0[1]) == 1:
+                return F.fn("attr:ndim", u0[1][0])          # len(x.shape) is x.ndim
+            return self.length(pos[0])          # len(x) is x.shape[0] is np.size(x, 0)
         if name in ("bool", "int") and n == 1 and is_rat(pos[0]) and pos[0].is_const():
             return pos[0]
         # ---- allocation
@@ -1015,12 +1194,16 @@ class CBEval(AutoEvaluator):
                 return self.new_buf("@", fv, node, shp if isinstance(shp, tuple) else (shp,)).sym          # np.full(shape, c) is np.zeros / np.ones with another fill
         # ---- identity on the elements
         if name in IDENT_FUNCS and n >= 1:
+            if name in ("np.ravel",) and is_rat(pos[0]) and single_atom(pos[0]) is not None:
+                self.w.flat.add(single_atom(pos[0]))
             return tuple(pos[0]) if isinstance(pos[0], PyList) else pos[0]
         if name in (".copy", ".astype") and n >= 1 and is_rat(pos[0]):
             b0 = self.buf_of(pos[0])
             x = self.deref(pos[0])
             return self.new_buf("@", x, node, b0.shape if b0 is not None else ("like", x)).sym      # a new array with the same elements
         if name.startswith(".") and name[1:] in IDENT_METHODS and n >= 1:
+            if name in (".ravel", ".flatten") and is_rat(pos[0]) and single_atom(pos[0]) is not None:
+                self.w.flat.add(single_atom(pos[0]))          # from here on the value stands for a one-dimensional array
             return pos[0]
         if name in ("np.sum", "sum") and n >= 1 and isinstance(pos[0], tuple):
             tot = F.const(0)
@@ -1052,6 +1235,22 @@ class CBEval(AutoEvaluator):
             return F.fn("abs", pos[0])
         if name == "np.square" and n == 1 and is_rat(pos[0]):
             return pos[0] * pos[0]
+        if name in ("np.diagonal", ".diagonal") and n == 1 and rat and not kws:
+            # the main diagonal of a matrix: np.diagonal takes matrices only, where np.diag(X) is the same vector
+            self._record("np.diag", pos, kws, node)
+            return self._opaque("np.diag", pos, kws)
+        if name in ("np.negative", "operator.neg") and n == 1 and is_rat(pos[0]) and not kws:
+            return -pos[0]
+        if name in ("np.positive", "operator.pos") and n == 1 and is_rat(pos[0]) and not kws:
+            return pos[0]
+        if name == "np.reciprocal" and n == 1 and is_rat(pos[0]) and not kws and not pos[0].is_zero():
+            return 1 / pos[0]
+        if name in ARITH_FUNCS and n == 2 and not kws:
+            return self.binop_values(ARITH_FUNCS[name](), pos[0], pos[1])
+        if name in ("operator.not_",) and n == 1 and is_rat(pos[0]):
+            return F.fn("not", pos[0])
+        if name in ("operator.invert", "np.invert", "np.bitwise_not") and n == 1 and is_rat(pos[0]):
+            return _invert(pos[0])
         if name in UNARY_FUNCS and n == 1:
             v = pos[0]
             if isinstance(v, tuple):
@@ -1079,9 +1278,9 @@ class CBEval(AutoEvaluator):
             lo, hi = (F.const(0), pos[0]) if n == 1 else pos
             return lo + F.fn("arange0", hi - lo)
         if name == "np.size" and n == 2 and rat and pos[1].is_const():
-            return F.fn("dim", pos[0], pos[1])
+            return self.dim(pos[0], pos[1])
         if name == "np.size" and n == 1 and rat:
-            return F.fn("attr:size", pos[0])
+            return self.size_of(pos[0])
         if name == "np.shape" and n == 1 and rat:
             return F.fn("attr:shape", pos[0])
         if name == "np.ndim" and n == 1 and rat:
@@ -1189,7 +1388,7 @@ class CBEval(AutoEvaluator):
             return None
         if isinstance(v, (tuple,)):
             return len(v) > 0
-        if isinstance(v, (NS, Closure, LocalsValue)):
+        if isinstance(v, (NS, Closure, LocalsValue, Partial)):
             return True
         if isinstance(v, DictValue):
             return len(v.d) > 0
@@ -1222,6 +1421,16 @@ class CBEval(AutoEvaluator):
                 return False if all(r is False for r in rs) else None
             if nm.startswith("cmp:") and len(args) == 2:
                 return self._decide_cmp(nm[4:], args[0], args[1])
+            q = _quantifier(v)
+            if q is not None:
+                # x.all() is `not (~x).any()`, x.any() is `not (~x).all()`: a fact stated about one spelling decides the other
+                t = self.facts.lookup_truth(F.fn("call:." + ("any" if q[0] == "all" else "all"), _invert(q[1])))
+                if t is not None:
+                    return not t
+            if nm in ("dim", "attr:size") and (nm != "dim" or eq(args[1], F.const(0))):
+                sg = self.facts.lookup_sign(v)
+                if sg is not None:
+                    return sg != "zero"
         sg = self.facts.lookup_sign(v)
         if sg is not None:
             return sg != "zero"
@@ -1269,6 +1478,20 @@ class CBEval(AutoEvaluator):
             return op == "NotEq"
         if op not in ("Eq", "NotEq", "Lt", "LtE", "Gt", "GtE"):
             return None
+        ta, tb = untuple(a), untuple(b)
+        if op in ("Eq", "NotEq") and ta is not None and tb is not None:
+            # tuples are equal when they have the same length and equal elements
+            if len(ta) != len(tb):
+                return op == "NotEq"
+            rs = [self._decide_cmp("Eq", x, y) if is_rat(x) and is_rat(y) else None for x, y in zip(ta, tb)]
+            if any(r is False for r in rs):
+                return op == "NotEq"
+            if all(r is True for r in rs):
+                return op == "Eq"
+            return None
+        r = self._decide_count(op, a, b)
+        if r is not None:
+            return r
         try:
             dif = a - b
         except Unsupported:
@@ -1282,6 +1505,29 @@ class CBEval(AutoEvaluator):
         if sg is None:
             return None
         return {"Eq": sg == "zero", "NotEq": sg != "zero", "Lt": sg == "neg", "LtE": sg in ("neg", "zero"), "Gt": sg == "pos", "GtE": sg in ("pos", "zero")}[op]
+
+    def _decide_count(self, op, a, b):
+        """a test on the number of true entries of a mask is a test on mask.any() / mask.all(): `count > 0`, `count != 0`, `count >= 1` say any,
+        `count == 0`, `count < 1` say none, `count == len(mask)` says all"""
+        flip = {"Lt": "Gt", "Gt": "Lt", "LtE": "GtE", "GtE": "LtE", "Eq": "Eq", "NotEq": "NotEq"}
+        ca, cb = _count_of(a), _count_of(b)
+        if ca is None and cb is not None:
+            a, b, ca, op = b, a, cb, flip[op]
+        if ca is None:
+            return None
+        if b.is_const():
+            c = b.const_value()
+            says_any = (op == "Gt" and c == 0) or (op == "NotEq" and c == 0) or (op == "GtE" and c == 1)
+            says_none = (op in ("Eq", "LtE") and c == 0) or (op == "Lt" and c == 1)
+            if says_any or says_none:
+                t = self.decide_value(F.fn("call:.any", ca))
+                return None if t is None else (t if says_any else not t)
+            return None
+        ub = unfn(b)
+        if ub is not None and ub[0] in ("dim", "attr:size") and eq(ub[1][0], ca) and (ub[0] != "dim" or eq(ub[1][1], F.const(0))) and op in ("Eq", "NotEq", "Lt"):
+            t = self.decide_value(F.fn("call:.all", ca))
+            return None if t is None else (t if op == "Eq" else not t)
+        return None
 
     # ------------------------------------------------------------------ statements
     def run(self, stmts):
@@ -1504,7 +1750,7 @@ class CBEval(AutoEvaluator):
             n = target.id
             if n in self.pinned:
                 return
-            if (n in self.buffers or shape is not None) and is_rat(v) and self.buf_of(v) is None:
+            if (n in self.buffers or shape is not None) and is_rat(v) and self.buf_of(v) is None and not (shape is None and self._is_handed_object(v)):
                 self.env[n] = self.new_buf(n, v, st, shape).sym
             else:
                 self.env[n] = v
@@ -1531,8 +1777,12 @@ class CBEval(AutoEvaluator):
                 for t, x in zip(target.elts, untuple(v)):
                     self._assign(t, x, st)
             elif is_rat(v) and not v.is_const():
+                uv = unfn(v)
                 for i, t in enumerate(target.elts):
-                    self._assign(t, F.fn("idx", v, F.const(i)), st)
+                    if uv is not None and uv[0] == "attr:shape" and len(uv[1]) == 1:
+                        self._assign(t, self.dim(uv[1][0], F.const(i)), st)          # r, c = X.shape
+                    else:
+                        self._assign(t, F.fn("idx", v, F.const(i)), st)
             else:
                 for t in target.elts:
                     self._assign(t, Unknown("tuple unpacking of a non-tuple"), st)
@@ -1586,6 +1836,11 @@ class CBEval(AutoEvaluator):
             self.w.cells.append((b.bid, ix, v, st, self.w.seq))
             return
 
+    def _is_handed_object(self, v):
+        """a value that is exactly one plain symbol (a parameter, a global): binding another name to it makes an alias of that object, not a new array"""
+        n = symname(v)
+        return n is not None and strconst(v) is None and n not in ("None", "True", "False", "Ellipsis", "pi", "inf", "nan") and n[0] not in "%<" and "#" not in n
+
     def expr(self, text, **bind):
         saved = {}
         for k, v in bind.items():
@@ -1627,6 +1882,53 @@ def _chained(base, ix):
     if us is None or us[0] != "slice" or not all(eq(x, NONE) for x in us[1]):
         return None
     return F.fn("idx", ub[1][0], F.fn("call:np.ix_", ub[1][1], t[1]))
+
+
+MASK_HEADS = ("invert", "mask:BitAnd", "mask:BitOr", "call:np.isnan", "call:np.isfinite", "call:np.isin", "call:np.isclose", "call:locate.index2bool",
+              "call:np.in1d", "call:np.iscomplex", "call:np.isreal")
+
+
+def _is_mask(v):
+    """is the value certainly a boolean array: a comparison, a mask operation, an .any / .all along an axis, a selection of such"""
+    u = unfn(v) if is_rat(v) else None
+    if u is None:
+        return False
+    if u[0].startswith("cmp:") or u[0] in MASK_HEADS:
+        return True
+    if u[0] in ("call:.any", "call:.all"):
+        return any((not isinstance(x, str)) and unfn(x) is not None and unfn(x)[0] == "kw:axis" for x in u[1])
+    if u[0] == "idx":
+        return _is_mask(u[1][0])
+    return False
+
+
+def _quantifier(v):
+    """mask.any() / mask.all() over the whole array (no axis) -> ("any" | "all", mask) else None"""
+    u = unfn(v) if is_rat(v) else None
+    if u is None or u[0] not in ("call:.any", "call:.all") or len(u[1]) != 1 or isinstance(u[1][0], str):
+        return None
+    return u[0][6:], u[1][0]
+
+
+def _count_of(v):
+    """the array whose true / non-zero entries the value counts (np.count_nonzero(x), x.sum() of a mask, the length of np.flatnonzero(x)) else None"""
+    u = unfn(v) if is_rat(v) else None
+    if u is None:
+        return None
+    if u[0] == "call:np.count_nonzero" and len(u[1]) == 1 and not isinstance(u[1][0], str):
+        return u[1][0]
+    if u[0] in ("call:.sum", "call:sum") and len(u[1]) == 1 and not isinstance(u[1][0], str) and _is_mask(u[1][0]):
+        return u[1][0]
+    if u[0] in ("dim", "attr:size") and (u[0] != "dim" or eq(u[1][1], F.const(0))):
+        w = unfn(u[1][0])
+        if w is not None and w[0] == "nonzero0" and len(w[1]) == 1:
+            return w[1][0]
+    return None
+
+
+def _full_slice(v):
+    u = unfn(v) if is_rat(v) else None
+    return u is not None and u[0] == "slice" and all(eq(x, NONE) for x in u[1])
 
 
 def _is_suppress(node):
@@ -1694,6 +1996,13 @@ class Run:
         if not is_rat(v):
             raise Unsupported(f"fact `{text_or_value}` is not a formula: {v!r}")
         self.facts.sign.append((v, sg))
+
+    def index_vector(self, text_or_value, **bind):
+        """state that a value is a one-dimensional array of integer positions (so X[np.ix_(v, v)] has len(v) rows)"""
+        v = self.root(text_or_value, **bind) if isinstance(text_or_value, str) else text_or_value
+        if not is_rat(v):
+            raise Unsupported(f"fact `{text_or_value}` is not a formula: {v!r}")
+        self.facts.intvec.append(v)
 
     def same(self, got, want, **bind):
         w = self.root(want, **bind) if isinstance(want, str) else want
